@@ -7,24 +7,37 @@ from . import core
 from .c14_run import Runner
 
 PROP = "C14"
-LEAN_TARGETS = ["Asynkit.Props.C14", "Asynkit.Lemmas.GenEqC14"]
-PROPS_FILES = ["Asynkit/Props/C14.lean", "Asynkit/Lemmas/GenEqC14.lean"]
+LEAN_TARGETS = ["Asynkit.Props.C14", "Asynkit.Lemmas.GenEqC14", "Asynkit.Lemmas.GenEqC14Std"]
+PROPS_FILES = ["Asynkit/Props/C14.lean", "Asynkit/Lemmas/GenEqC14.lean", "Asynkit/Lemmas/GenEqC14Std.lean",
+               "Asynkit/Lemmas/C14StdLock.lean"]
 DRIVERS = ["Cond"]
 TRUSTED = [
-    "Lean 4.33 kernel; axioms ⊆ {propext, Classical.choice, Quot.sound} (audited per theorem each run)",
-    "hand-written model Asynkit/Model/Cond.lean of PriorityCondition.wait/_notify, priority._released and "
-    "InterruptCondition.wait, tied to the code by trace acceptance (lean/Drivers/Cond.lean replays every real "
-    "event trace of this run: each event must be enabled and the observed state must equal the model state)",
-    "the underlying lock is abstract in the model: acquire() returns only when the lock is free and makes the "
-    "caller the owner; a cancelled/interrupted acquire raises without taking the lock (mutual exclusion of "
-    "PriorityLock = property C13; of asyncio.Lock = stdlib).  The harness checks mutual exclusion with a "
-    "ghost owner on every run.",
-    "modelled, not verified: asyncio Task.cancel/__step/__wakeup delivery (an exception delivered to a "
-    "suspended task is raised at its current await when it next runs; Task.cancel on a task blocked on a "
-    "pending future cancels that future), contextlib.asynccontextmanager exit semantics, "
-    "asyncio.Condition.wait_for/notify_all (stdlib code inherited by both classes)",
+    'Lean 4.33 kernel; axioms ⊆ {propext, Classical.choice, Quot.sound} (audited per theorem each run)',
+    'translated, not trusted: PriorityCondition._notify/notify/wait (with priority._released inlined: entry, '
+    'wake, re-acquire raising, finish with the _notify(1) hand-over) and InterruptCondition.wait are '
+    're-translated from the source on every run (translator/cond2lean.py over the symbolic executor segexec.py ->'
+    ' Gen/Cond.lean) and proved equal to the waitStart/wake/acqExc/finish/notify transitions of '
+    'Asynkit/Model/Cond.lean (Lemmas/GenEqC14.lean, 19 theorems)',
+    "translated, not trusted (stdlib): asyncio.Lock.acquire/release/_wake_up_first/locked and "
+    "asyncio.Condition.notify/notify_all/wait_for are re-translated on every run from the running interpreter's "
+    "asyncio/locks.py (translator/asynciolocks2lean.py -> Gen/AsyncioLocks.lean, sha256 + Python version recorded); "
+    "Lemmas/GenEqC14Std proves the Condition methods equal to the model's notify (.ic) / notifyAll / wfPred "
+    "transitions and Lemmas/C14StdLock proves the Lock a refinement of the abstract lock of Model/Cond.lean "
+    "(mutual exclusion, a raising acquire leaves the lock alone, FIFO hand-over)",
+    'hand-written: Model/CondPrims.lean (what Future.done/set_result, create_future, the abstract lock, '
+    "PriorityQueue.add/remove/ordereditems at the level of C17's reference model, deque.append/remove and "
+    'asynccontextmanager mean on the model state); trace acceptance (lean/Drivers/Cond.lean replays every real '
+    'event trace of this run) still ties the whole transition system to the code',
+    'the underlying lock is abstract in the model: acquire() returns only when the lock is free and makes the '
+    'caller the owner; a cancelled/interrupted acquire raises without taking the lock (for PriorityLock this is '
+    'property C13; for asyncio.Lock the refinement theorem above).  The harness checks mutual exclusion with a '
+    'ghost owner on every run.',
+    'modelled, not verified: asyncio Task.cancel/__step/__wakeup delivery (an exception delivered to a suspended '
+    'task is raised at its current await when it next runs; Task.cancel on a task blocked on a pending future '
+    'cancels that future), asyncio.Future done/cancelled/set_result, collections.deque, '
+    'contextlib.asynccontextmanager exit semantics',
     "the waiter queue is modelled at the level of C17's reference model (arrival-ordered list, ordereditems = "
-    "stable order by (priority, arrival)); refinement of tools.PriorityQueue to it is property C17",
+    'stable order by (priority, arrival)); refinement of tools.PriorityQueue to it is property C17 (GenEqPQ)',
 ]
 ASSUMPTIONS = [
     "only CancelledError-derived exceptions are delivered (plain cancel, InterruptException subclasses)",
